@@ -177,3 +177,180 @@ Definition spec_verify_key (z : Z) (sig pk : bytes) : option bool :=
    coordinates reach Signature.verify only through Key(..., strict=False) since C04 fix 75f674d *)
 Definition coords_reduced (Q : Z * Z) : bool :=
   let (x, y) := Q in (0 <=? x) && (x <? secp_p) && (0 <=? y) && (y <? secp_p).
+
+(* ================================================================ sessions: many calls in ONE process / on ONE object
+   The property speaks of sign and verify as FUNCTIONS of their arguments.  The code is a long-lived Python process
+   with module-level names and Signature / Key objects that are reused between calls; a function-level model says
+   nothing about what such a process does on the second call.  Here the process is modelled as it is: a fold over
+   the list of calls that carries the state the code really keeps — none for signing, the attributes _txid, x, y,
+   _public_key of the Signature object for verifying — and Proofs/EcdsaSession.v proves that the fold is the map of
+   the stateless functions above.  The correspondence runs whole sessions (requests signseq / vseq). *)
+
+(* a process: [call] answers one request and hands the state on *)
+Fixpoint run_session {St Rq An : Type} (call : St -> Rq -> St * An) (st : St) (reqs : list Rq) : list An :=
+  match reqs with
+  | [] => []
+  | q :: rest => let (st', a) := call st q in a :: run_session call st' rest
+  end.
+
+(* ---------------------------------------------------------------- signing sessions *)
+
+Record sign_req : Type := mk_sign_req { sq_d : Z; sq_msg : bytes; sq_k : option Z; sq_ht : Z }.
+
+Definition lib_sign_req (q : sign_req) : option (Z * Z * bytes) := lib_sign (sq_d q) (sq_msg q) (sq_k q) (sq_ht q).
+
+(* what Signature.create keeps between two calls: nothing (no module-level cache, no counter, nothing written to the
+   Key object); rfc6979_warning_given is only touched without fastecdsa *)
+Definition sign_state : Type := unit.
+Definition lib_sign_call (st : sign_state) (q : sign_req) : sign_state * option (Z * Z * bytes) := (st, lib_sign_req q).
+Definition lib_sign_session (reqs : list sign_req) : list (option (Z * Z * bytes)) := run_session lib_sign_call tt reqs.
+
+(* ---------------------------------------------------------------- verifying on a Signature object *)
+
+(* Signature.verify on an object holding (r, s): what lib_verify does after parsing *)
+Definition lib_verify_rs (dg : bytes) (r s : Z) (Q : Z * Z) : option bool :=
+  if in_range r && in_range s && lib_on_curve Q && negb (length dg =? 0)%nat
+  then Some (ecdsa_verify (lib_z dg) r s (reduce_pt Q))
+  else None.
+
+(* the ways a caller hands over the public key *)
+Inductive key_arg : Type :=
+  | KObj (pk : bytes)      (* a Key / HDKey object the caller built from SEC bytes: Key(pk), HDKey(pk) *)
+  | KBytes (pk : bytes)    (* the SEC bytes themselves: the public_key setter builds HDKey(pk) *)
+  | KPriv (d : Z)          (* a private Key / HDKey object: the setter takes its public() *)
+  | KText (pk : bytes)     (* the SEC bytes as hex text (either case): the setter builds HDKey(text), which reads
+                              the text as it reads the bytes (fix C13-3; before it the setter had no branch for
+                              str and raised AttributeError: lib_key_arg_prefix) *)
+  | KPoint (Q : Z * Z).    (* an (x, y) tuple: not an accepted type — AttributeError *)
+
+Definition lib_key_arg (a : key_arg) : option (Z * Z) :=
+  match a with
+  | KObj pk => lib_pub_point pk
+  | KBytes pk => lib_pub_point pk
+  | KPriv d => if in_range d then secp_pub d else None
+  | KText pk => lib_pub_point pk
+  | KPoint _ => None
+  end.
+
+(* the tree before fix C13-3: a key given as text is refused (finding text_key_rejected, fixed) *)
+Definition lib_key_arg_prefix (a : key_arg) : option (Z * Z) :=
+  match a with
+  | KText _ => None
+  | _ => lib_key_arg a
+  end.
+
+(* the caller builds the object before the call: when that fails, the library is not called at all *)
+Definition built_by_caller (a : key_arg) : bool :=
+  match a with KObj _ => true | KPriv _ => true | _ => false end.
+
+(* the stateless function of the three arguments (signature value, digest, key): THE function the property names *)
+Definition lib_verify_step (r s : Z) (dg : bytes) (a : key_arg) : option bool :=
+  match lib_key_arg a with
+  | Some Q => lib_verify_rs dg r s Q
+  | None => None
+  end.
+
+Definition lib_verify_step_prefix (r s : Z) (dg : bytes) (a : key_arg) : option bool :=      (* before fix C13-3 *)
+  match lib_key_arg_prefix a with
+  | Some Q => lib_verify_rs dg r s Q
+  | None => None
+  end.
+
+(* the same with the signature given in encoded form: keys.verify(txid, signature_bytes, key) *)
+Definition lib_verify_arg (dg sig : bytes) (a : key_arg) : option bool :=
+  match lib_key_arg a with
+  | Some Q => lib_verify dg sig Q
+  | None => None
+  end.
+
+(* the attributes of a Signature object that Signature.verify reads and writes *)
+Record sig_obj : Type := mk_sig_obj {
+  so_r : Z; so_s : Z;
+  so_txid : option bytes;          (* _txid: None, or the digest last handed over ('' is kept as '') *)
+  so_xy : option (Z * Z);          (* x, y: written by the public_key setter BEFORE its curve check *)
+  so_haskey : bool }.              (* _public_key is not None: written after the curve check *)
+
+Definition obj_with_txid (o : sig_obj) (dg : option bytes) : sig_obj :=
+  match dg with
+  | Some d => mk_sig_obj (so_r o) (so_s o) (Some d) (so_xy o) (so_haskey o)
+  | None => o
+  end.
+
+(* Signature.public_key = value: (object afterwards, False = an exception was raised) *)
+Definition obj_set_key (o : sig_obj) (a : key_arg) : sig_obj * bool :=
+  match lib_key_arg a with
+  | None => (o, false)                                              (* HDKey(bytes) raised / AttributeError *)
+  | Some Q =>
+      if lib_on_curve Q then (mk_sig_obj (so_r o) (so_s o) (so_txid o) (Some Q) true, true)
+      else (mk_sig_obj (so_r o) (so_s o) (so_txid o) (Some Q) (so_haskey o), false)
+  end.
+
+(* the tail of Signature.verify: "if not self.txid or not self.public_key: raise", then _ecdsa.verify on the
+   stored attributes *)
+Definition obj_verdict (o : sig_obj) : option bool :=
+  match so_txid o, so_xy o with
+  | Some dg, Some Q => if so_haskey o then lib_verify_rs dg (so_r o) (so_s o) Q else None
+  | _, _ => None
+  end.
+
+(* one call  obj.verify(txid, public_key)  /  keys.verify(txid, obj, public_key); None = the argument is omitted *)
+Definition verify_step : Type := (option bytes * option key_arg)%type.
+
+Definition obj_verify (o : sig_obj) (st : verify_step) : sig_obj * option bool :=
+  let (dg, ka) := st in
+  match ka with
+  | Some a =>
+      if built_by_caller a && (match lib_key_arg a with None => true | Some _ => false end) then (o, None)
+      else
+        let (o2, ok) := obj_set_key (obj_with_txid o dg) a in
+        (o2, if ok then obj_verdict o2 else None)
+  | None => let o1 := obj_with_txid o dg in (o1, obj_verdict o1)
+  end.
+
+(* where Signature objects come from *)
+Inductive sig_src : Type :=
+  | SrcSign (q : sign_req)                                            (* keys.sign / Signature.create *)
+  | SrcBytes (sig : bytes) (key : option key_arg)                    (* Signature.parse / parse_bytes / parse_hex *)
+  | SrcValues (r s : Z) (dg : option bytes) (key : option key_arg).  (* Signature(r, s, txid=, public_key=) *)
+
+Definition new_obj (r s : Z) (dg : option bytes) (key : option key_arg) : option sig_obj :=
+  if in_range r && in_range s then
+    let o := mk_sig_obj r s dg None false in
+    match key with
+    | None => Some o
+    | Some a => let (o2, ok) := obj_set_key o a in if ok then Some o2 else None
+    end
+  else None.
+
+Definition lib_new_obj (src : sig_src) : option sig_obj :=
+  match src with
+  | SrcSign q =>
+      match lib_sign_req q with
+      | Some (r, s, _) => Some (mk_sig_obj r s (Some (lib_digest (sq_msg q))) (secp_pub (sq_d q)) true)
+      | None => None
+      end
+  | SrcBytes sig key =>
+      match lib_parse sig with
+      | Some (r, s, _) => new_obj r s None key
+      | None => None
+      end
+  | SrcValues r s dg key => new_obj r s dg key
+  end.
+
+(* a verification session: build ONE object, then call verify on it again and again; None = no object *)
+Definition lib_verify_session (src : sig_src) (steps : list verify_step) : option (list (option bool)) :=
+  match lib_new_obj src with
+  | Some o => Some (run_session obj_verify o steps)
+  | None => None
+  end.
+
+(* a step with both arguments present *)
+Definition explicit_step (st : verify_step) : bool :=
+  match st with (Some _, Some _) => true | _ => false end.
+
+(* the stateless reading of an explicit step (an omitted argument has no stateless reading: refused) *)
+Definition stateless_step (r s : Z) (st : verify_step) : option bool :=
+  match st with
+  | (Some dg, Some a) => lib_verify_step r s dg a
+  | _ => None
+  end.
